@@ -44,6 +44,7 @@ where
                 Lazy_::Blackhole(..) => return Err(Error::Message("<<loop>>".into())),
                 Lazy_::Thunk(ref value) => Lazy_::Thunk(deep_cloner.deep_clone(value)?.unrooted()),
                 Lazy_::Value(ref value) => Lazy_::Value(deep_cloner.deep_clone(value)?.unrooted()),
+                Lazy_::Failed(ref err) => Lazy_::Failed(err.clone()),
             };
             let data: Box<dyn Userdata> = Box::new(Lazy {
                 value: Mutex::new(cloned_value),
@@ -69,6 +70,8 @@ enum Lazy_ {
     ),
     Thunk(Value),
     Value(Value),
+    // The computation failed: every later `force` reports this error
+    Failed(String),
 }
 
 unsafe impl<T> Trace for Lazy<T> {
@@ -77,6 +80,7 @@ unsafe impl<T> Trace for Lazy<T> {
             Lazy_::Blackhole(..) => (),
             Lazy_::Thunk(value) => mark(value, gc),
             Lazy_::Value(value) => mark(value, gc),
+            Lazy_::Failed(_) => (),
         }
     }
 }
@@ -114,31 +118,43 @@ fn force(
             drop(lazy_lock);
             let vm = vm.root_thread();
             Either::Right(Either::Left(async move {
-                match function.call_async(()).await {
-                    Ok(value) => {
-                        {
-                            let value = match lazy.thread.deep_clone_value(&vm, value.get_value()) {
-                                Ok(value) => value,
-                                Err(err) => return RuntimeResult::Panic(err.to_string().into()),
-                            };
-                            let mut lazy_lock = lazy.value.lock().unwrap();
-                            match *lazy_lock {
-                                Lazy_::Blackhole(_, ref mut x) => {
-                                    if let Some((sender, _receiver)) = x.take() {
-                                        sender.send(()).unwrap();
-                                    }
-                                }
-                                _ => unreachable!(),
-                            }
-                            // SAFETY Rooted by being stored in the lazy value
-                            unsafe {
-                                *lazy_lock = Lazy_::Value(value.get_variant().unrooted());
-                            }
+                let result = match function.call_async(()).await {
+                    Ok(value) => match lazy.thread.deep_clone_value(&vm, value.get_value()) {
+                        Ok(cloned) => Ok((value, cloned)),
+                        Err(err) => Err(err.to_string()),
+                    },
+                    Err(err) => Err(format!("{}", err)),
+                };
+                // Whether the computation succeeded or not the blackhole must be replaced and
+                // any thread waiting for it must be woken up
+                let mut lazy_lock = lazy.value.lock().unwrap();
+                let waiter = match *lazy_lock {
+                    Lazy_::Blackhole(_, ref mut x) => x.take(),
+                    _ => unreachable!(),
+                };
+                let result = match result {
+                    Ok((value, cloned)) => {
+                        // SAFETY Rooted by being stored in the lazy value
+                        unsafe {
+                            *lazy_lock = Lazy_::Value(cloned.get_variant().unrooted());
                         }
+                        Ok(value)
+                    }
+                    Err(err) => {
+                        *lazy_lock = Lazy_::Failed(err.clone());
+                        Err(err)
+                    }
+                };
+                drop(lazy_lock);
+                if let Some((sender, _receiver)) = waiter {
+                    let _ = sender.send(());
+                }
+                match result {
+                    Ok(value) => {
                         value.vm_push(&mut vm.current_context()).unwrap();
                         RuntimeResult::Return(Pushed::default())
                     }
-                    Err(err) => RuntimeResult::Panic(format!("{}", err).into()),
+                    Err(err) => RuntimeResult::Panic(err.into()),
                 }
             }))
         }
@@ -161,24 +177,26 @@ fn force(
                 let ready = opt.as_ref().unwrap().1.clone();
                 let vm = vm.root_thread();
                 Either::Right(Either::Right(
-                    ready
-                        .map(move |_| {
-                            let lazy_lock = lazy.value.lock().unwrap();
-                            match *lazy_lock {
-                                Lazy_::Value(ref value) => {
-                                    vm.current_context().push(value);
-                                    Pushed::default()
-                                }
-                                _ => unreachable!(),
+                    ready.map(move |_| {
+                        let lazy_lock = lazy.value.lock().unwrap();
+                        match *lazy_lock {
+                            Lazy_::Value(ref value) => {
+                                vm.current_context().push(value);
+                                RuntimeResult::Return(Pushed::default())
                             }
-                        })
-                        .map(RuntimeResult::Return),
+                            Lazy_::Failed(ref err) => RuntimeResult::Panic(err.clone().into()),
+                            _ => unreachable!(),
+                        }
+                    }),
                 ))
             }
             Lazy_::Value(ref value) => {
                 vm.current_context().push(value);
                 Either::Left(future::ready(RuntimeResult::Return(Pushed::default())))
             }
+            Lazy_::Failed(ref err) => Either::Left(future::ready(RuntimeResult::Panic(
+                err.clone().into(),
+            ))),
             _ => unreachable!(),
         },
     }
